@@ -64,6 +64,25 @@ def c12_a(ctx: Ctx):
         else:
             out.append(ctx.viol(R, e.fi, e.node, f"{e.prim} without exist_ok=True: a process that loses the race between the isdir() check and the creation "
                                 "fails with FileExistsError although the directory it wanted exists"))
+    # check-then-raise: a failure decided by probing the file system again after an earlier probe / failed step is a race with concurrent creators
+    for q in (INIT, PINIT):
+        g = ctx.fn(q)
+        for r in [n for n in body_nodes(g) if isinstance(n, ast.Raise)]:
+            facts = common.facts_at(ctx, g, r, "nx")
+            probes = [(t, pol) for (t, pol) in facts if pol and any(x in t for x in ("os.path.lexists(", "os.path.exists(", "os.path.isfile(", "os.path.islink("))]
+            negdir = [(t, pol) for (t, pol) in facts if (not pol) and "os.path.isdir(" in t]
+            kk = f"{q}|check-then-raise|{stmt_key(r, 30)}"
+            import re as _re
+
+            def _arg(t):
+                m = _re.search(r"os\.path\.\w+\((.*)\)$", t)
+                return m.group(1).replace(" ", "") if m else None
+            same_path = any(_arg(tp) is not None and _arg(tp) == _arg(tn) for (tp, _a) in probes for (tn, _b) in negdir)
+            sp_probe = any("statepoint" in tp.lower() or "FN_STATE_POINT" in tp for (tp, _a) in probes)
+            if (q == PINIT and same_path) or (q == INIT and sp_probe):
+                out.append(ctx.viol(R, g, r, f"{q.split(':')[-1]} raises because a second look at the file system says {probes[0][0]!r}: between the first observation (directory / file missing, "
+                                    "load failed) and this probe another process may have created exactly what is being tested for, and a healthy concurrent start-up is reported as an error",
+                                    construct=kk))
     # check-then-act: the directory helper must not turn 'somebody else created it meanwhile' into an error
     mk = ctx.fn("signac._utility:_mkdir_p")
     rs = [n for n in body_nodes(mk) if isinstance(n, ast.Raise)]
